@@ -1349,4 +1349,65 @@ theorem wf_prep (o : Opts) (r : Route) (v : V) (hv : v.wf = true) : (o.prep r v)
     · exact wf_owned _ (wf_collapseDeep v hv)
 
 
+
+
+/-! ### equality of values up to a relation on number tokens -/
+
+mutual
+  /-- same structure, same strings and keys (scalars), number tokens related by `R` -/
+  def SameUpTo (R : Bytes → Bytes → Prop) : V → V → Prop
+    | .null, .null => True
+    | .bool a, .bool b => a = b
+    | .num a, .num b => R a b
+    | .str a, .str b => a.cs = b.cs
+    | .arr xs, .arr ys => SameUpToL R xs ys
+    | .obj fs, .obj gs => SameUpToF R fs gs
+    | _, _ => False
+  def SameUpToL (R : Bytes → Bytes → Prop) : List V → List V → Prop
+    | [], [] => True
+    | x :: xs, y :: ys => SameUpTo R x y ∧ SameUpToL R xs ys
+    | _, _ => False
+  def SameUpToF (R : Bytes → Bytes → Prop) : List (Str × V) → List (Str × V) → Prop
+    | [], [] => True
+    | (k, x) :: fs, (l, y) :: gs => k.cs = l.cs ∧ SameUpTo R x y ∧ SameUpToF R fs gs
+    | _, _ => False
+end
+
+mutual
+  theorem sameUpTo_norm_mapNum (R : Bytes → Bytes → Prop) (f : Bytes → Bytes)
+      (hR : ∀ l, validNum l = true → R (f l) l) : ∀ (w : V), w.wf = true → SameUpTo R (norm (mapNum f w)) w
+    | .null, _ => by simp [mapNum, norm, SameUpTo]
+    | .bool _, _ => by simp [mapNum, norm, SameUpTo]
+    | .num l, h => by simpa [mapNum, norm, SameUpTo] using hR l (by simpa [V.wf] using h)
+    | .str _, _ => by simp [mapNum, norm, SameUpTo]
+    | .arr xs, h => by
+      simp only [V.wf] at h
+      simp only [mapNum, norm, SameUpTo]; exact sameUpTo_list R f hR xs h
+    | .obj fs, h => by
+      simp only [V.wf] at h
+      simp only [mapNum, norm, SameUpTo]; exact sameUpTo_fields R f hR fs h
+  theorem sameUpTo_list (R : Bytes → Bytes → Prop) (f : Bytes → Bytes)
+      (hR : ∀ l, validNum l = true → R (f l) l) :
+      ∀ (xs : List V), wfList xs = true → SameUpToL R (normList (mapNumList f xs)) xs
+    | [], _ => by simp [mapNumList, normList, SameUpToL]
+    | x :: xs, h => by
+      simp only [wfList, Bool.and_eq_true] at h
+      simp only [mapNumList, normList, SameUpToL]
+      exact ⟨sameUpTo_norm_mapNum R f hR x h.1, sameUpTo_list R f hR xs h.2⟩
+  theorem sameUpTo_fields (R : Bytes → Bytes → Prop) (f : Bytes → Bytes)
+      (hR : ∀ l, validNum l = true → R (f l) l) :
+      ∀ (fs : List (Str × V)), wfFields fs = true → SameUpToF R (normFields (mapNumFields f fs)) fs
+    | [], _ => by simp [mapNumFields, normFields, SameUpToF]
+    | (k, x) :: fs, h => by
+      simp only [wfFields, Bool.and_eq_true] at h
+      simp only [mapNumFields, normFields, SameUpToF]
+      exact ⟨trivial, sameUpTo_norm_mapNum R f hR x h.1.2, sameUpTo_fields R f hR fs h.2⟩
+end
+
+
+theorem spaces_ws (n : Nat) : (spaces n).all isWs = true := by
+  induction n with
+  | zero => rfl
+  | succ n ih => simpa [spaces, isWs] using ih
+
 end SV.JqOut
